@@ -178,7 +178,7 @@ Proof. reflexivity. Qed.
    (accepted or refused cipher), sign, decrypt, export and attach subkeys.  (Before e967622 the conclusion was "ALL secret
    fields are zero", which destroyed unprotected subkeys: C06_exit_clears_all_old_refuted.) *)
 Theorem C06_scope_exit_locks : forall (cfb_enc cfb_dec : prim4) (sha1 : bytes -> bytes) (s2k : s2kfn) st0 p body o,
-  exit_op o -> forallb scope_neutral body = true -> primary_protected (k_pkts st0) = true ->
+  exit_op o -> forallb scope_neutral body = true -> any_protected (k_pkts st0) = true ->
   let st := run cfb_enc cfb_dec sha1 s2k (OEnter p :: body ++ [o]) st0 in
   forallb locked_or_unprot (k_pkts st) = true /\
   (forall c, In c (k_pkts st) -> protected c = true -> all_zero c = true /\ exists b, view c = Locked b) /\
@@ -189,7 +189,7 @@ Example C06_scope_neutral_body : forallb scope_neutral [OSign 0; ODecrypt 1; OEx
 Proof. reflexivity. Qed.
 
 Theorem C06_failed_enter_clears : forall (cfb_enc cfb_dec : prim4) (sha1 : bytes -> bytes) (s2k : s2kfn) st pass kind,
-  primary_protected (k_pkts st) = true -> enter_pkts cfb_dec sha1 s2k pass (k_pkts st) = inl kind ->
+  any_protected (k_pkts st) = true -> enter_pkts cfb_dec sha1 s2k pass (k_pkts st) = inl kind ->
   step cfb_enc cfb_dec sha1 s2k st (OEnter pass) = ({| k_pkts := map relock (k_pkts st); k_scopes := k_scopes st |}, BRaised kind).
 Proof. exact failed_enter_clears. Qed.
 Print Assumptions C06_failed_enter_clears.
@@ -204,19 +204,33 @@ Theorem C06_enter_unprotected_raises_old_refuted : forall (cfb_dec : prim4) (sha
 Proof. exact enter_unprotected_raises_old_refuted. Qed.
 Print Assumptions C06_enter_unprotected_raises_old_refuted.
 
-(* a locked key refuses private operations: directly, and after any history that leaves no real scope open *)
+(* a locked key refuses private operations: directly, and after any history that leaves no real scope open.  Since repair
+   cab6d36 KeyAction checks the component that does the work: a locked COMPONENT (primary or subkey, OSign i / ODecrypt i are
+   carried out by packet i) refuses; a locked primary refuses its own signatures and every decryption *)
+Theorem C06_locked_component_refuses : forall (cfb_enc cfb_dec : prim4) (sha1 : bytes -> bytes) (s2k : s2kfn) st c i,
+  nth_error (k_pkts st) i = Some c -> protected c = true -> all_zero c = true -> p_fields c <> [] ->
+  step cfb_enc cfb_dec sha1 s2k st (OSign i) = (st, BRefused) /\ step cfb_enc cfb_dec sha1 s2k st (ODecrypt i) = (st, BRefused).
+Proof. exact locked_component_refuses. Qed.
+Print Assumptions C06_locked_component_refuses.
 Theorem C06_locked_refuses : forall (cfb_enc cfb_dec : prim4) (sha1 : bytes -> bytes) (s2k : s2kfn) st c rest i,
   k_pkts st = c :: rest -> protected c = true -> all_zero c = true -> p_fields c <> [] ->
-  step cfb_enc cfb_dec sha1 s2k st (OSign i) = (st, BRefused) /\ step cfb_enc cfb_dec sha1 s2k st (ODecrypt i) = (st, BRefused).
+  step cfb_enc cfb_dec sha1 s2k st (OSign 0) = (st, BRefused) /\ step cfb_enc cfb_dec sha1 s2k st (ODecrypt i) = (st, BRefused).
 Proof. exact locked_refuses. Qed.
 Print Assumptions C06_locked_refuses.
 Theorem C06_locked_refuses_after_any_history : forall (cfb_enc cfb_dec : prim4) (sha1 : bytes -> bytes) (s2k : s2kfn) st0 ops c rest i,
   inv st0 = true -> open_scope (run cfb_enc cfb_dec sha1 s2k ops st0) = false ->
   k_pkts (run cfb_enc cfb_dec sha1 s2k ops st0) = c :: rest -> protected c = true -> p_fields c <> [] ->
-  step cfb_enc cfb_dec sha1 s2k (run cfb_enc cfb_dec sha1 s2k ops st0) (OSign i) = (run cfb_enc cfb_dec sha1 s2k ops st0, BRefused) /\
+  step cfb_enc cfb_dec sha1 s2k (run cfb_enc cfb_dec sha1 s2k ops st0) (OSign 0) = (run cfb_enc cfb_dec sha1 s2k ops st0, BRefused) /\
   step cfb_enc cfb_dec sha1 s2k (run cfb_enc cfb_dec sha1 s2k ops st0) (ODecrypt i) = (run cfb_enc cfb_dec sha1 s2k ops st0, BRefused).
 Proof. exact locked_refuses_run. Qed.
 Print Assumptions C06_locked_refuses_after_any_history.
+Theorem C06_locked_component_refuses_after_any_history : forall (cfb_enc cfb_dec : prim4) (sha1 : bytes -> bytes) (s2k : s2kfn) st0 ops c i,
+  inv st0 = true -> open_scope (run cfb_enc cfb_dec sha1 s2k ops st0) = false ->
+  nth_error (k_pkts (run cfb_enc cfb_dec sha1 s2k ops st0)) i = Some c -> protected c = true -> p_fields c <> [] ->
+  step cfb_enc cfb_dec sha1 s2k (run cfb_enc cfb_dec sha1 s2k ops st0) (OSign i) = (run cfb_enc cfb_dec sha1 s2k ops st0, BRefused) /\
+  step cfb_enc cfb_dec sha1 s2k (run cfb_enc cfb_dec sha1 s2k ops st0) (ODecrypt i) = (run cfb_enc cfb_dec sha1 s2k ops st0, BRefused).
+Proof. exact locked_component_refuses_run. Qed.
+Print Assumptions C06_locked_component_refuses_after_any_history.
 
 (* a wrong passphrase raises (the gate of the first packet it fails on) and leaves a locked key exactly as it was *)
 Theorem C06_bad_gate_raises : forall (cfb_dec : prim4) (sha1 : bytes -> bytes) (s2k : s2kfn) pass c rest b,
@@ -225,7 +239,7 @@ Theorem C06_bad_gate_raises : forall (cfb_dec : prim4) (sha1 : bytes -> bytes) (
 Proof. exact bad_gate_raises. Qed.
 Print Assumptions C06_bad_gate_raises.
 Theorem C06_wrong_pass_stays_locked : forall (cfb_enc cfb_dec : prim4) (sha1 : bytes -> bytes) (s2k : s2kfn) st pass kind,
-  primary_protected (k_pkts st) = true -> forallb locked_or_unprot (k_pkts st) = true ->
+  any_protected (k_pkts st) = true -> forallb locked_or_unprot (k_pkts st) = true ->
   enter_pkts cfb_dec sha1 s2k pass (k_pkts st) = inl kind ->
   step cfb_enc cfb_dec sha1 s2k st (OEnter pass) = (st, BRaised kind).
 Proof. exact wrong_pass_stays_locked. Qed.
@@ -265,7 +279,7 @@ Theorem C06_refused_protect_invisible : forall (cfb_enc cfb_dec : prim4) (sha1 :
 Proof. exact refused_protect_invisible. Qed.
 Print Assumptions C06_refused_protect_invisible.
 Theorem C06_accepted_protect : forall (cfb_enc cfb_dec : prim4) (sha1 : bytes -> bytes) (s2k : s2kfn) st pass alg halg count rnd,
-  can_encrypt alg = true -> primary_protected (k_pkts st) && negb (primary_unlocked (k_pkts st)) = false ->
+  can_encrypt alg = true -> any_locked (k_pkts st) = false ->
   step cfb_enc cfb_dec sha1 s2k st (OProtect pass alg halg count rnd) =
   ({| k_pkts := protect_pkts cfb_enc sha1 s2k pass alg halg count rnd (k_pkts st); k_scopes := k_scopes st |}, BDone).
 Proof. exact accepted_protect. Qed.
@@ -293,3 +307,108 @@ Proof. exact protect_sym_ok. Qed.
 Print Assumptions C06_protect_sym.
 Example C06_guarded_not_vacuous : guarded (sym_of_pkt {| p_blob := None; p_fields := [5]; p_chk := [0; 7] |}) = false.
 Proof. reflexivity. Qed.
+
+(* ---- round of repairs 080d1e8 / a8a4c11 / 9a72221 / 8563c06 ---- *)
+(* protect refuses (warning, nothing changed) while ANY component is protected and locked; unlock enters when ANY component is
+   protected; a GNU-extension stub is passed over by unlock and stays as it is *)
+Theorem C06_protect_refused_while_any_locked : forall (cfb_enc cfb_dec : prim4) (sha1 : bytes -> bytes) (s2k : s2kfn) st pass alg halg count rnd,
+  any_locked (k_pkts st) = true -> step cfb_enc cfb_dec sha1 s2k st (OProtect pass alg halg count rnd) = (st, BWarned).
+Proof. exact protect_refused_while_any_locked. Qed.
+Print Assumptions C06_protect_refused_while_any_locked.
+Theorem C06_enter_skips_stub : forall (cfb_dec : prim4) (sha1 : bytes -> bytes) (s2k : s2kfn) pass c r u a e sn rs,
+  p_blob c = Some (BGnu u a e sn rs) ->
+  enter_pkts cfb_dec sha1 s2k pass (c :: r) = match enter_pkts cfb_dec sha1 s2k pass r with inr r' => inr (c :: r') | inl k => inl k end.
+Proof. exact enter_skips_stub. Qed.
+Print Assumptions C06_enter_skips_stub.
+(* the rules before the repairs looked at the primary key only: the old protect on [unprotected primary; locked subkey] is carried
+   out and writes for the subkey a ciphertext of its CLEARED fields ([0]) -- the subkey's secret is lost; the old unlock on
+   [unprotected primary; protected subkey] only warns *)
+Theorem C06_protect_old_refuted : forall (cfb_enc cfb_dec : prim4) (sha1 : bytes -> bytes) (s2k : s2kfn),
+  exists st, any_locked (k_pkts st) = true /\
+  step cfb_enc cfb_dec sha1 s2k st (OProtect [1] 9 8 96 []) = (st, BWarned) /\
+  snd (protect_old cfb_enc sha1 s2k st [1] 9 8 96 []) = BDone /\
+  nth_error (k_pkts (fst (protect_old cfb_enc sha1 s2k st [1] 9 8 96 []))) 1 =
+    Some {| p_blob := Some (BStd (mk_sblob cfb_enc sha1 s2k 254 9 3 8 [] 96 [] [1] [0])); p_fields := [0]; p_chk := [] |}.
+Proof. exact protect_old_refuted. Qed.
+Print Assumptions C06_protect_old_refuted.
+Theorem C06_enter_old_refuted : forall (cfb_enc cfb_dec : prim4) (sha1 : bytes -> bytes) (s2k : s2kfn),
+  exists st pass, any_protected (k_pkts st) = true /\ snd (enter_old cfb_dec sha1 s2k st pass) = BWarned /\
+  step cfb_enc cfb_dec sha1 s2k st (OEnter pass) <> enter_old cfb_dec sha1 s2k st pass.
+Proof. exact enter_old_refuted. Qed.
+Print Assumptions C06_enter_old_refuted.
+
+(* after ANY history (protect accepted / refused / warned, unlock with any passphrase, exits, exceptions, private operations,
+   export, re-import, add_subkey) every component still carries its original secret integers: in the clear when it is not
+   protected, otherwise inside a ciphertext that decrypts to them; a protected component's fields are those integers or cleared.
+   In particular protect never wrote the ciphertext of a locked component's cleared fields.  Premises: the round-trip ones and
+   the idealised gate (two accepted passphrases give the same integers). *)
+Theorem C06_protect_never_encrypts_a_locked_component : forall (cfb_enc cfb_dec : prim4) (sha1 : bytes -> bytes) (s2k : s2kfn),
+  (forall a k iv x, cfb_dec a k iv (cfb_enc a k iv x) = x) -> (forall x, length (sha1 x) = 20%nat) ->
+  (forall n b p1 p2 m1 r1 m2 r2, unprotect_std cfb_dec sha1 s2k n b p1 = UOk m1 r1 -> unprotect_std cfb_dec sha1 s2k n b p2 = UOk m2 r2 -> m2 = m1) ->
+  forall ops st orig, Forall wf_mpis orig -> faithful cfb_dec sha1 s2k orig (k_pkts st) -> Forall op_wf ops ->
+  faithful cfb_dec sha1 s2k (run_orig cfb_enc cfb_dec sha1 s2k ops st orig) (k_pkts (run cfb_enc cfb_dec sha1 s2k ops st)).
+Proof. exact protect_never_encrypts_a_locked_component. Qed.
+Print Assumptions C06_protect_never_encrypts_a_locked_component.
+Theorem C06_faithful_spec : forall (cfb_dec : prim4) (sha1 : bytes -> bytes) (s2k : s2kfn) orig k, faithful cfb_dec sha1 s2k orig k ->
+  Forall2 (fun s c => (p_blob c = None -> p_fields c = s) /\
+                      (forall b, p_blob c = Some (BStd b) -> exists pass r, unprotect_std cfb_dec sha1 s2k (length s) b pass = UOk s r)) orig k.
+Proof. exact faithful_spec. Qed.
+Print Assumptions C06_faithful_spec.
+(* non-vacuity: the three premises hold for the identity cipher; every unprotected key is faithful to its own fields *)
+Example C06_faithful_premises_inhabited :
+  (forall a k iv x, triv_cfb a k iv (triv_cfb a k iv x) = x) /\ (forall x, length (triv_sha1 x) = 20%nat) /\
+  (forall n b p1 p2 m1 r1 m2 r2, unprotect_std triv_cfb triv_sha1 triv_s2k n b p1 = UOk m1 r1 ->
+                                 unprotect_std triv_cfb triv_sha1 triv_s2k n b p2 = UOk m2 r2 -> m2 = m1).
+Proof. exact triv_prims_ok. Qed.
+Example C06_faithful_initial : forall (cfb_dec : prim4) (sha1 : bytes -> bytes) (s2k : s2kfn) k,
+  Forall (fun c => p_blob c = None) k -> faithful cfb_dec sha1 s2k (map p_fields k) k.
+Proof. exact unprotected_faithful. Qed.
+
+(* `with key.unlock(p): <sign / decrypt / export>` on a key whose components may be protected differently (unprotected primary,
+   protected subkeys, stubs): inside the scope every component that is not protected -- and nothing about any at-rest form -- is as
+   it was ([same_unprot]); after the scope (normal exit or exception) the key is EXACTLY what it was *)
+Theorem C06_scope_relocks_exactly_what_it_unlocked : forall (cfb_enc cfb_dec : prim4) (sha1 : bytes -> bytes) (s2k : s2kfn) st0 p body o k',
+  exit_op o -> forallb reads_only body = true ->
+  any_protected (k_pkts st0) = true -> forallb locked_or_unprot (k_pkts st0) = true ->
+  enter_pkts cfb_dec sha1 s2k p (k_pkts st0) = inr k' ->
+  fst (step cfb_enc cfb_dec sha1 s2k st0 (OEnter p)) = {| k_pkts := k'; k_scopes := true :: k_scopes st0 |} /\
+  Forall2 (fun c c' => p_blob c' = p_blob c /\ (protected c = false -> c' = c)) (k_pkts st0) k' /\
+  run cfb_enc cfb_dec sha1 s2k (OEnter p :: body ++ [o]) st0 = st0.
+Proof. exact scope_relocks_exactly. Qed.
+Print Assumptions C06_scope_relocks_exactly_what_it_unlocked.
+Example C06_scope_premises_inhabited : forall (cfb_dec : prim4) (sha1 : bytes -> bytes) (s2k : s2kfn),
+  let k := [ {| p_blob := None; p_fields := [5]; p_chk := [0; 5] |}; {| p_blob := Some (BGnu 254 0 1 [] []); p_fields := [0]; p_chk := [] |} ] in
+  any_protected k = true /\ forallb locked_or_unprot k = true /\ enter_pkts cfb_dec sha1 s2k [1] k = inr k.
+Proof. exact scope_premises_inhabited. Qed.
+
+(* the legacy form of RFC 4880 5.5.3 (usage octet = cipher id; key = MD5 simple S2K of the passphrase; IV; 16-bit checksum inside
+   the ciphertext): what is written is  usage ‖ IV ‖ CFB(mpis ‖ sum16),  String2Key.parse reads the specifier back, and decryption
+   with the passphrase gives the integers back *)
+Theorem C06_legacy_usage_roundtrip : forall (cfb_enc cfb_dec : prim4) (sha1 : bytes -> bytes) (s2k : s2kfn),
+  (forall a k iv x, cfb_dec a k iv (cfb_enc a k iv x) = x) -> (forall x, length (sha1 x) = 20%nat) ->
+  forall u iv pass ms, wf_legacy u iv -> wf_mpis ms ->
+  let b := mk_sblob cfb_enc sha1 s2k u u 0 1 [] 0 iv pass ms in
+  blob_emit (BStd b) = [u] ++ iv ++ cfb_enc u (s2k 0 1 u [] 0 pass) iv (secret_plain ms ++ int_to_bytes (sumz (secret_plain ms) mod 65536) 2) /\
+  s2k_parse (blob_emit (BStd b)) = Some (inr (BStd b), []) /\
+  unprotect cfb_dec sha1 s2k (length ms) b pass = Some ms.
+Proof. exact legacy_usage_roundtrip. Qed.
+Print Assumptions C06_legacy_usage_roundtrip.
+(* ... and that layout is the RFC 4880 5.5.3 transcription of the "usage octet = cipher" form *)
+Theorem C06_write_legacy_eq_rfc : forall (cfb_enc : prim4) (sha1 : bytes -> bytes) (s2k : s2kfn) u iv pass ms,
+  wf_mpis ms -> legacy u = true ->
+  write_secret cfb_enc sha1 s2k (WStd u u 0 1 [] 0 iv pass) ms = rfc_secret_part_legacy cfb_enc sha1 u iv (s2k 0 1 u [] 0 pass) ms.
+Proof. exact write_legacy_eq_rfc. Qed.
+Print Assumptions C06_write_legacy_eq_rfc.
+Example C06_wf_legacy_inhabited : wf_legacy 7 (repeat 0 16) /\ wf_legacy 3 (repeat 0 8) /\ wf_legacy 9 (repeat 1 16).
+Proof. repeat split; try (exists 16; split; reflexivity); exists 8; split; reflexivity. Qed.
+(* decrypt o encrypt for ANY usage octet: 254 carries the SHA-1, everything else the 16-bit checksum (since 8563c06 also checked) *)
+Theorem C06_unprotect_protect_any_usage : forall (cfb_enc cfb_dec : prim4) (sha1 : bytes -> bytes) (s2k : s2kfn),
+  (forall a k iv x, cfb_dec a k iv (cfb_enc a k iv x) = x) -> (forall x, length (sha1 x) = 20%nat) ->
+  forall u a sp h salt c iv pass ms, wf_mpis ms ->
+  unprotect_std cfb_dec sha1 s2k (length ms) (mk_sblob cfb_enc sha1 s2k u a sp h salt c iv pass ms) pass = UOk ms (tail_of sha1 u ms).
+Proof. exact unprotect_std_protect_any. Qed.
+Print Assumptions C06_unprotect_protect_any_usage.
+(* before the repair nothing was checked under a legacy usage octet *)
+Theorem C06_gate_old_refuted : forall (sha1 : bytes -> bytes), exists u pt, legacy u = true /\ gate_old sha1 u pt = true /\ gate sha1 u pt = false.
+Proof. exact gate_old_refuted. Qed.
+Print Assumptions C06_gate_old_refuted.
